@@ -665,7 +665,7 @@ impl Gen {
             match self.rng.below(7) {
                 0 => sender = self.acct(),
                 1 => funds = vec![coin(1, QUOTES[0])],
-                2 => price = self.rng.pick(&["1.75", "0", "abc", "4", "-2"]).to_string(),
+                2 => price = self.rng.pick(&["1.75", "0", "abc", "4", "-2", ""]).to_string(),
                 3 => size = 0,
                 4 => ask_id = self.odd_id(w, &ask_id),
                 5 => bid_id = self.odd_id(w, &bid_id),
@@ -701,9 +701,10 @@ impl Gen {
 
     fn partial(&mut self, info: &ContractInfoV3, rem: u128) -> Option<Uint128> {
         let inc = info.size_increment.u128().max(1);
-        match self.rng.below(10) {
-            0..=2 => None,
-            3..=6 => {
+        match self.rng.below(21) {
+            20 => Some(Uint128::zero()),
+            0..=2 | 10..=12 => None,
+            3..=6 | 13..=16 => {
                 let k = rem / inc;
                 if k >= 1 {
                     Some(Uint128::new(inc * (1 + self.rng.below(k.min(1 << 40) as u64) as u128)))
@@ -711,8 +712,8 @@ impl Gen {
                     Some(Uint128::new(inc))
                 }
             }
-            7 => Some(Uint128::new(1 + self.rng.below((rem + inc).min(1 << 40) as u64) as u128)),
-            8 => Some(Uint128::new(rem)),
+            7 | 17 => Some(Uint128::new(1 + self.rng.below((rem + inc).min(1 << 40) as u64) as u128)),
+            8 | 18 => Some(Uint128::new(rem)),
             _ => Some(Uint128::new(rem + inc)),
         }
     }
@@ -854,10 +855,12 @@ impl Gen {
                 let mut base = info.base_denom.clone();
                 let mut sender = if info.approvers.is_empty() { self.acct() } else { self.rng.pick(&info.approvers).to_string() };
                 if self.rng.pct(self.w.perturb_pct / 2) {
-                    match self.rng.below(4) {
+                    match self.rng.below(6) {
                         0 => size += 1,
                         1 => base = a.as_ref().map(|a| a.base.clone()).unwrap_or_else(|| "other".into()),
                         2 => sender = self.acct(),
+                        3 => base = String::new(),
+                        4 => size = 0,
                         _ => size = size.saturating_sub(1),
                     }
                 }
@@ -1179,7 +1182,15 @@ impl Gen {
                     if eq > 1 && self.rng.pct(40) {
                         let r = 1 + self.rng.below((eq - 1).min(1 << 40) as u64) as u128;
                         events.push(Action::Fill { base: coin(eb, info.base_denom.clone()), fee: fcoin, price: price.clone(), quote: coin(eq - r, quote.clone()) });
-                        events.push(Action::Refund { fee: None, quote: coin(r, quote.clone()) });
+                        // the refund may hand back a share of the fee as well
+                        let rfee = if fee_amt > fee_used && self.rng.pct(50) {
+                            let x = 1 + self.rng.below((fee_amt - fee_used).min(1 << 30) as u64) as u128;
+                            fee_used += x;
+                            Some(coin(x, quote.clone()))
+                        } else {
+                            None
+                        };
+                        events.push(Action::Refund { fee: rfee, quote: coin(r, quote.clone()) });
                     } else {
                         events.push(Action::Fill { base: coin(eb, info.base_denom.clone()), fee: fcoin, price: price.clone(), quote: coin(eq, quote.clone()) });
                     }
@@ -1246,12 +1257,13 @@ impl Gen {
             });
         }
         if r.pct(30) {
-            match r.below(5) {
+            match r.below(6) {
                 0 => {
                     m.ask_fee_rate = Some("".into());
                     m.ask_fee_account = Some("".into());
                 }
                 1 => m.ask_fee_rate = Some("0.01".into()),
+                5 => m.ask_fee_account = Some("frank".into()),
                 2 => {
                     m.ask_fee_rate = Some("abc".into());
                     m.ask_fee_account = Some("frank".into());
@@ -1267,12 +1279,13 @@ impl Gen {
             }
         }
         if r.pct(30) {
-            match r.below(4) {
+            match r.below(5) {
                 0 => {
                     m.bid_fee_rate = Some("".into());
                     m.bid_fee_account = Some("".into());
                 }
                 1 => m.bid_fee_account = Some("erin".into()),
+                4 => m.bid_fee_rate = Some("0.005".into()),
                 _ => {
                     m.bid_fee_rate = Some("0.005".into());
                     m.bid_fee_account = Some("erin".into());
